@@ -3,6 +3,7 @@ module verif/sim
 go 1.26.8
 
 require (
+	github.com/btcsuite/btcd v0.0.0-20190629003639-c26ffa870fd8
 	github.com/btcsuite/btcutil v0.0.0-20190425235716-9e5f4b9a998d
 	github.com/golang/snappy v0.0.1
 	github.com/lianxiangcloud/linkchain v0.0.0
@@ -17,7 +18,6 @@ require (
 	github.com/aristanetworks/goarista v0.0.0-20190704150520-f44d68189fd7 // indirect
 	github.com/beorn7/perks v1.0.0 // indirect
 	github.com/boltdb/bolt v1.3.1 // indirect
-	github.com/btcsuite/btcd v0.0.0-20190629003639-c26ffa870fd8 // indirect
 	github.com/davecgh/go-spew v1.1.1 // indirect
 	github.com/dgraph-io/badger v1.6.0 // indirect
 	github.com/dgryski/go-farm v0.0.0-20190423205320-6a90982ecee2 // indirect
@@ -55,6 +55,6 @@ require (
 replace (
 	github.com/NebulousLabs/go-upnp => github.com/lianxiangcloud/go-upnp v0.0.0-20190905032046-65768e0b268c
 	github.com/go-interpreter/wagon => github.com/xunleichain/wagon v0.5.3
-	github.com/lianxiangcloud/linkchain => /tmp/wt-c1112
+	github.com/lianxiangcloud/linkchain => /tmp/wt-c20
 	gopkg.in/sourcemap.v1 => github.com/go-sourcemap/sourcemap v1.0.5
 )
